@@ -104,7 +104,7 @@ static void gen_tree(hctx* h, el_t* e, int* n, int cap, int depth, int is_root) 
     static const char* const prefix_pool[] = { "p", "pr", "price", "price_usd", "id", "idx", "i", "col_1", "col_10" };
     if (h_chance(h, 1, 3)) snprintf(e[me].name, sizeof e[me].name, "%s", prefix_pool[h_below(h, 9)]);
     else snprintf(e[me].name, sizeof e[me].name, "%c%d", 'a' + (int)h_below(h, 4), (int)h_below(h, 5));
-    e[me].rep = is_root ? (h_chance(h, 1, 2) ? -1 : 0) : (int)h_below(h, 3);
+    e[me].rep = is_root ? (int)h_below(h, 4) - 1 : (int)h_below(h, 3);   /* the root may state any repetition (older writers do): it must not count */
     if (!is_root && h_chance(h, 1, 12)) e[me].rep = -1;
     e[me].tlen = 0; e[me].ptype = -1; e[me].nchild = 0;
     int want_group = is_root || (depth < 6 && *n + 2 < cap && h_chance(h, 2, 5));
